@@ -419,9 +419,17 @@ def rule_r4(prog, res) -> None:
         res.violation("C07.R4", bt, bad.node if bad is not None else bt.node, "a tree is built from something else than the patch's data file", key_extra="tree-input")
 
 
+def rule_r5(prog, res) -> None:
+    """cached trees are read from disk on every use: no in-memory memo of file contents in the catalog modules"""
+    from .common import memo_rule
+
+    memo_rule(prog, res, "C07.R5", lambda f: f.module.name.startswith("yaw.catalog"), "trees rebuilt with another binning are not picked up")
+
+
 RULES = [
     ("C07.R1", rule_r1, QUICK),
     ("C07.R2", rule_r2, QUICK),
     ("C07.R3", rule_r3, QUICK),
     ("C07.R4", rule_r4, QUICK),
+    ("C07.R5", rule_r5, QUICK),
 ]
